@@ -80,7 +80,7 @@ def run_case(case: dict[str, Any]) -> CaseOut:
             c.select(b'INBOX', learn=True)
             tag = c.next_tag()
             raw = c.raw_send(tag + b' IDLE\r\n')
-            assert raw.endswith(b'+ Idling.\r\n'), raw
+            assert b'+ Idling.\r\n' in raw, raw
             for r in c.parse(raw):
                 c.shadow.apply(r)
             idlers.append((c, tag))
